@@ -24,7 +24,7 @@ from fractions import Fraction
 
 from .. import astutil as A
 from .. import runoff
-from ..alg import FragmentFault, Interp, Obj, Poly, PyFunc, Undecided, fn, same_value, to_poly
+from ..alg import NotHandled, FragmentFault, Interp, Obj, Poly, PyFunc, Undecided, fn, same_value, to_poly
 from ..alg import tensorlib_obj as _tensorlib_obj
 from .. import listnp
 from ..dep import Deps
@@ -127,6 +127,9 @@ def run(ctx):
             for n in ast.walk(m.node):
                 if isinstance(n, ast.Assign) and any(A.dotted(t) == "self.pdf_type" for t in n.targets) and isinstance(A.const_value(n.value), str):
                     assigned.add(A.const_value(n.value))
+        for st in c.node.body:  # or a class attribute: every instance reads the same constant
+            if isinstance(st, (ast.Assign, ast.AnnAssign)) and st.value is not None and isinstance(A.const_value(st.value), str) and any(isinstance(t, ast.Name) and t.id == "pdf_type" for t in (st.targets if isinstance(st, ast.Assign) else [st.target])):
+                assigned.add(A.const_value(st.value))
     used = {}
     for kind, c in classes.items():
         lits = set()
@@ -524,6 +527,14 @@ def _staterror_widths(ctx, rid, repo):
         ctx.unrecognised(rid, fin, "staterror builder", f"not interpretable: {type(e).__name__}: {e}")
 
 
+def _ps_attr(ps, name):
+    """an attribute of a real parameter-set object, set by its constructor or defined by its class"""
+    if name in ps.attrs:
+        return ps.attrs[name]
+    from ..objmodel import World
+    return World({}).get_property(ps, name)
+
+
 def real_paramsets(repo, spec):
     """{name: REAL parameter-set object} built by interpreting parameters/paramsets.py: spec maps name -> (class name, n, extra kwargs).
     What a set looks like when no widths are configured is the classes' own business."""
@@ -574,6 +585,7 @@ def _constraint_tables(ctx, rid, repo):
             ext = listnp.externals()
             ext.update({
                 "param_set": lambda a, k: psets[a[0]],
+                "__getattr__": lambda o_, nm_: _ps_attr(o_, nm_) if hasattr(o_, "cls") else (_ for _ in ()).throw(NotHandled()),
                 "ParamViewer": viewer,
                 "subscribe": lambda a, k: PyFunc(lambda a2, k2: None, "subscriber"),
                 "get_backend": (lambda tl_: (lambda a, k: (tl_, None)))(_tensorlib_obj()),
@@ -696,7 +708,7 @@ def _constraint_template(ctx, rid, repo):
                     ncomp = int(ps.attrs["n_parameters"].const_value())
                     for i in range(ncomp):
                         th, x = at(tname(r, slices[n][0] + i)), at(xname(r, off + i))
-                        if ps.attrs["pdf_type"] == "normal":
+                        if _ps_attr(ps, "pdf_type") == "normal":
                             sig = ps.attrs["sigmas"][i] if "sigmas" in ps.attrs else c(1)
                             tot = tot + fn("normal_logpdf", x, th, sig)
                         else:
